@@ -16,7 +16,7 @@ use std::sync::Arc;
 use miniscript::bitcoin::bip32::{ChildNumber, DerivationPath, Fingerprint, Xpriv, Xpub};
 use miniscript::bitcoin::hashes::{hash160, ripemd160, sha256, Hash};
 use miniscript::bitcoin::key::TapTweak;
-use miniscript::bitcoin::script::{Builder, Instruction, PushBytesBuf};
+use miniscript::bitcoin::script::Instruction;
 use miniscript::bitcoin::secp256k1::{self, Message, Secp256k1, SecretKey};
 use miniscript::bitcoin::sighash::{EcdsaSighashType, Prevouts, SighashCache, TapSighashType};
 use miniscript::bitcoin::taproot::{TapLeafHash, TapNodeHash};
@@ -407,32 +407,6 @@ fn pushed_items(s: &ScriptBuf) -> Option<Vec<Vec<u8>>> {
     }
     Some(v)
 }
-/// minimal-push encoding of a list of stack items (what a standard scriptSig must look like)
-fn minimal_pushes(items: &[Vec<u8>]) -> ScriptBuf {
-    let mut b = Builder::new();
-    for it in items {
-        if it.len() == 1 && (1..=16).contains(&it[0]) { b = b.push_int(it[0] as i64); }
-        else if it.len() == 1 && it[0] == 0x81 { b = b.push_int(-1); }
-        else { b = b.push_slice(PushBytesBuf::try_from(it.clone()).unwrap()); }
-    }
-    b.into_script()
-}
-/// The REPAIRED glue for pre-segwit outputs: same pushed items, minimally encoded, and for
-/// `sh(<miniscript>)` followed by the redeem script (see findings F9 / F13).
-fn fixed_scriptsig(dd: &DD, ss: &ScriptBuf) -> ScriptBuf {
-    match dd.desc.desc_type() {
-        DescriptorType::Bare | DescriptorType::Pkh => pushed_items(ss).map(|v| minimal_pushes(&v)).unwrap_or(ss.clone()),
-        DescriptorType::Sh => {
-            let mut v = match pushed_items(ss) { Some(v) => v, None => return ss.clone() };
-            let redeem = dd.desc.explicit_script().unwrap().into_bytes();
-            // idempotent: a library that already appends the redeem script is left alone
-            if v.last() != Some(&redeem) { v.push(redeem); }
-            minimal_pushes(&v)
-        }
-        _ => ss.clone(),
-    }
-}
-
 fn ph_wire(p: &Placeholder<DefiniteDescriptorKey>) -> String {
     use Placeholder::*;
     match p {
@@ -459,16 +433,12 @@ fn ty_name(t: DescriptorType) -> &'static str {
 }
 
 thread_local! { static RAW_BUDGET: RefCell<BTreeMap<String, u32>> = RefCell::new(BTreeMap::new()); }
-/// The RAW judge lines of the classes with a recorded finding (F9 for `sh.*`; the size
-/// formulas of `sh.*`, `wsh.*`, `shwsh.*`, `shwpkh.*`) are emitted for the first 25 cases of
-/// each (op, tag) only: every case of these classes is still judged by the `-fixed` / `-adj`
-/// line, and `bin/check` looks at the first 1000 judge failures only.
+/// The raw `J sizes` lines of the classes with a recorded (unfixed) finding — `wsh.*`,
+/// `shwsh.*` (witness script not counted), `shwpkh.*` / `shwsh.*` (scriptSig 23 / 35 vs 24 / 36)
+/// — are emitted for the first 25 cases of each tag only: every case of these classes is still
+/// judged by its `J sizes-adj` line, and `bin/check` looks at the first 1000 judge failures only.
 fn raw_budget(op: &str, tag: &str) -> bool {
-    let known = match op {
-        "plan-same" | "planspend" => tag.starts_with("sh."),
-        "sizes" => tag.starts_with("sh.") || tag.starts_with("wsh.") || tag.starts_with("shwsh.") || tag.starts_with("shwpkh."),
-        _ => false,
-    };
+    let known = op == "sizes" && (tag.starts_with("wsh.") || tag.starts_with("shwsh.") || tag.starts_with("shwpkh."));
     if !known { return true; }
     RAW_BUDGET.with(|b| { let mut b = b.borrow_mut(); let c = b.entry(format!("{} {}", op, tag)).or_insert(0); *c += 1; *c <= 25 })
 }
@@ -481,7 +451,7 @@ fn make_plan(dd: &DD, assets: &PlanAssets, mall: bool) -> Option<Option<Plan<Def
 }
 
 /// Does any key of the descriptor have an EMPTY derivation path while a source with the same
-/// fingerprint has a different path?  (the F7 class)
+/// fingerprint has a different path?  (the class that panicked before the F7 fix)
 fn f7_class(dd: &DD, pa: &PA) -> bool {
     dd.keys.iter().any(|k| { let k = kent(*k); k.path.is_empty() && pa.srcs.iter().any(|s| s.fp == k.fp && !s.path.is_empty()) })
 }
@@ -512,11 +482,10 @@ pub fn check_case(out: &mut Out, dd: &DD, pa: &PA, mall: bool, adversarial: bool
         Some(s) => s,
     };
     let sn = |b: bool| if b { "some" } else { "none" };
-    // tag: descriptor type + whether the template contains OP_1 (pre-segwit push encoding)
-    let push1 = plan.as_ref().map(|p| p.witness_template().iter().any(|x| matches!(x, Placeholder::PushOne))).unwrap_or(false);
+    // tag: descriptor type (+ key / script path for taproot)
     let keypath = plan.as_ref().map(|p| p.witness_template().len() == 1 && ty == DescriptorType::Tr).unwrap_or(false);
     let tag = format!("{}.{}", ty_name(ty), if ty == DescriptorType::Tr { if keypath { "key" } else { "script" } }
-        else if push1 && matches!(ty, DescriptorType::Bare | DescriptorType::Sh) { "push1" } else { "std" });
+        else { "std" });
     let head = format!("{} {} {} {}", tag, mode, dd.name, aw);
     // (a) plan exists <=> the satisfier succeeds
     out.line(&format!("J plan-iff-sat {} {} {}", head, sn(plan.is_some()), sn(sat.is_some())), "ok");
@@ -542,9 +511,7 @@ pub fn check_case(out: &mut Out, dd: &DD, pa: &PA, mall: bool, adversarial: bool
     };
     // (b) byte equality with the satisfier's output
     if let Some((swit, sss)) = &sat {
-        if raw_budget("plan-same", &tag) {
-            out.line(&format!("J plan-same {} {} {} {} {}", head, wit_wire(&pwit), hex(pss.as_bytes()), wit_wire(swit), hex(sss.as_bytes())), "ok");
-        }
+        out.line(&format!("J plan-same {} {} {} {} {}", head, wit_wire(&pwit), hex(pss.as_bytes()), wit_wire(swit), hex(sss.as_bytes())), "ok");
         // glue model: both assemblies from the completed stack
         let stack: Option<Vec<Vec<u8>>> = plan.witness_template().iter().map(|p| p.satisfy_self(&psat)).collect();
         if let Some(stack) = stack {
@@ -553,29 +520,19 @@ pub fn check_case(out: &mut Out, dd: &DD, pa: &PA, mall: bool, adversarial: bool
             out.line(&format!("C planglue {} {} {} {}", ty_name(ty), hex(&script), hex(&inner), wit_wire(&stack)),
                 &format!("P:{}/{} G:{}/{}", wit_wire(&pwit), hex(pss.as_bytes()), wit_wire(swit), hex(sss.as_bytes())));
         }
-        if matches!(ty, DescriptorType::Bare | DescriptorType::Sh | DescriptorType::Pkh) {
-            // same comparison on the repaired glue (keeps the check alive for the F9/F13 classes)
-            let script = dd.desc.explicit_script().map(|s| s.into_bytes()).unwrap_or_default();
-            out.line(&format!("J plan-same-fixed {} {} {} {} {}", head, hex(&script), hex(pss.as_bytes()), wit_wire(swit), hex(sss.as_bytes())), "ok");
-        }
     }
     // (e) announced sizes are upper bounds of the real ones (real = the spend that validates)
-    let fss = fixed_scriptsig(dd, &pss);
-    let (mw, mss) = (measured_witness(&pwit), measured_scriptsig(&fss));
+    let (mw, mss) = (measured_witness(&pwit), measured_scriptsig(&pss));
     if raw_budget("sizes", &tag) {
         out.line(&format!("J sizes {} {} {} {} {} {}", head, plan.witness_size(), plan.scriptsig_size(), plan.satisfaction_weight(), mw, mss), "ok");
     }
     // the same with the parts the size functions are KNOWN to leave out discounted
-    // (witness script item of wsh / sh-wsh; redeem-script push and multi-byte length prefix of
-    // sh; the push opcode of the witness program in sh-wpkh / sh-wsh), so that every other
-    // contribution stays checked
+    // (witness script item of wsh / sh-wsh; the push opcode of the witness program in
+    // sh-wpkh / sh-wsh), so that every other contribution stays checked
     let (dw, dss) = match ty {
         DescriptorType::Wsh => (varint(script_len) + script_len, 0),
         DescriptorType::ShWsh => (varint(script_len) + script_len, 1),
         DescriptorType::ShWpkh => (0, 1),
-        // redeem-script push, and the growth of the length prefix beyond the single byte the
-        // formula assumes (`varint_len(number of items)`) — both part of the F9 size finding
-        DescriptorType::Sh => { let rp = minimal_pushes(&[dd.desc.explicit_script().unwrap().into_bytes()]).len(); (0, measured_scriptsig(&fss) - (1 + fss.len() - rp)) }
         _ => (0, 0),
     };
     if dw + dss > 0 {
@@ -583,11 +540,7 @@ pub fn check_case(out: &mut Out, dd: &DD, pa: &PA, mall: bool, adversarial: bool
     }
     // (c) sufficiency: the spend validates at nLockTime / nSequence EQUAL to the reported locks
     let info = format!("{} lt={} sq={}", head, lt, sq);
-    if fss != pss && raw_budget("planspend", &tag) {
-        // the plan's own bytes (differ from the repaired ones for the F9 class only)
-        emit_spend(out, "planspend", &head, &psat, &pss, &pwit);
-    }
-    emit_spend_std(out, "spend", &info, &psat, &fss, &pwit);
+    emit_spend_std(out, "spend", &info, &psat, &pss, &pwit);
     // (d) necessity: any smaller value, the other unit, or no lock at all must fail
     let mut variants: Vec<(u32, u32, &'static str)> = vec![];
     if let Some(a) = plan.absolute_timelock.map(|l| l.to_consensus_u32()) {
@@ -605,8 +558,7 @@ pub fn check_case(out: &mut Out, dd: &DD, pa: &PA, mall: bool, adversarial: bool
     for (l2, s2, what) in variants {
         let ps2 = PSat::new(dd, pa, l2, s2);
         if let Some(Some((w2, ss2))) = catch(|| plan.satisfy(&ps2).ok()) {
-            let f2 = fixed_scriptsig(dd, &ss2);
-            emit_spend_std(out, "spendfail", &format!("{} {} lt={} sq={}", head, what, l2, s2), &ps2, &f2, &w2);
+            emit_spend_std(out, "spendfail", &format!("{} {} lt={} sq={}", head, what, l2, s2), &ps2, &ss2, &w2);
             out.count(&format!("necessity {}", what));
         }
     }
@@ -623,13 +575,6 @@ fn emit_spend_std(out: &mut Out, op: &str, info: &str, ps: &PSat, ss: &ScriptBuf
     let (lt, sq) = (ps.tx.lock_time.to_consensus_u32(), ps.tx.input[0].sequence.to_consensus_u32());
     out.line(&format!("J {} {} {} {} {} {} | {}", op, lt, sq, hex(ps.prevout.script_pubkey.as_bytes()), hex(ss.as_bytes()), wit_wire(wit), info), "ok");
 }
-/// `J planspend <tag> <mode> <desc> <assets> <lt> <sq> <spk> <scriptSig> <witness>`: the plan's own bytes
-fn emit_spend(out: &mut Out, op: &str, head: &str, ps: &PSat, ss: &ScriptBuf, wit: &[Vec<u8>]) {
-    desc::register_valid(out, &ps.tx, &ps.prevout, ss, wit, &candidates(ps));
-    let (lt, sq) = (ps.tx.lock_time.to_consensus_u32(), ps.tx.input[0].sequence.to_consensus_u32());
-    out.line(&format!("J {} {} {} {} {} {} {}", op, head, lt, sq, hex(ps.prevout.script_pubkey.as_bytes()), hex(ss.as_bytes()), wit_wire(wit)), "ok");
-}
-
 /* ---------------------------------------------------------------- asset enumeration */
 
 fn lock_options_abs(afters: &[u32]) -> Vec<Option<u32>> {
@@ -673,7 +618,6 @@ fn pa_variants(dd: &DD, cap: usize, rng: &mut Rng) -> Vec<PA> {
         let k = kent(dd.keys[i]);
         { let mut a = full.clone(); a.srcs.remove(i); v.push(a); }
         for rel in [Rel::Parent, Rel::Grand, Rel::Sibling, Rel::OtherFp, Rel::Child] {
-            if rel == Rel::Child && k.path.is_empty() { continue; } // F7 class: adversarial section only
             if let Some(s) = Src::of(k, rel) { let mut a = full.clone(); a.srcs[i] = s; v.push(a); }
         }
         { let mut a = full.clone(); a.srcs[i].ecdsa = false; a.srcs[i].leaves = Leaves::None; v.push(a); }
@@ -850,7 +794,6 @@ pub fn run(out: &mut Out, thorough: bool, seed: u64) {
                 let k = kent(key);
                 let mut pas = vec![PA::default()];
                 for rel in [Rel::Exact, Rel::Parent, Rel::Grand, Rel::Sibling, Rel::OtherFp, Rel::Child] {
-                    if rel == Rel::Child && k.path.is_empty() { continue; }
                     if let Some(s) = Src::of(k, rel) {
                         pas.push(PA { srcs: vec![s.clone()], ..Default::default() });
                         let mut s2 = s.clone(); s2.ecdsa = false;
@@ -898,7 +841,7 @@ pub fn run(out: &mut Out, thorough: bool, seed: u64) {
             }
         }
     }
-    // ---- adversarial assets: no panic (F7 class and neighbours)
+    // ---- adversarial assets: no panic (origin-less keys vs same-fingerprint sources of any depth)
     adversarial(out);
     std::panic::set_hook(old_hook);
     out.note("descriptors", n_desc.to_string());
